@@ -68,7 +68,7 @@ P = {
             'parameter update and / or a random one, in every history of the low-base-fee regime the boundary right after the block that '
             'took the first minimum step and often the one right before the block that takes the second): the continuous node\'s database '
             '(every key / value pair) and the run-time bookkeeping of the history are dumped to a file under os.MkdirTemp, the harness '
-            'binary is re-executed (`hq restart-child`, other TZ / locale) and the child loads the dump into a fresh MemDB (thorough, every '
+            'binary is re-executed (`hq restart-child`, same environment) and the child loads the dump into a fresh MemDB (thorough, every '
             'second case: a goleveldb directory of its own, closed and opened again), constructs the application, reports Info, the '
             'cached chain id, the stored parameters and the answers to the same ~130 queries under the same header, executes all following '
             'blocks from the recorded transaction bytes (building each transaction from its own state as well) and reports every block\'s '
